@@ -41,7 +41,7 @@ from props.c15 import add_dis
 ID = 'C20'
 COQ_PROP = 'C20'
 LEVEL = 'proof'
-TRANSLATE = ['recipes']
+TRANSLATE = ['recipes', 'sql', 'disk']
 TRUSTED = [
     'atomic layer: Averager.add (one transact block), Averager.pop (one atomic Cache.pop) and Averager.get (one lock-free read; with statistics=True or the least-recently-used / least-frequently-used policy one write transaction, placed at its COMMIT) are single steps of model/Recipes.v (C05/C06 assumed)',
     'Averager report monitor: real-time order of two calls is read off the scheduler (a call is invoked when its client\'s previous call has returned, and has returned once its last event was granted; one client runs between two grants); added values are integers or multiples of 1/4 of magnitude at most 2^8, at most 9 per run, so every total is exact in binary64 in any order and total/count is the same single division in the implementation and in the monitor',
